@@ -51,6 +51,7 @@ type Violation struct {
 	Site    string // signature used for known-finding matching
 	Inputs  []ReplayVal
 	Sched   []int
+	SchedPos []string
 	Trace   []string
 	PathID  string
 }
@@ -175,6 +176,7 @@ type Machine struct {
 	timersOn     bool
 	preempts     int
 	sched        []int
+	schedPos []string
 	now          *smt.Term
 	violSeen     map[string]bool
 	strIntern    map[string]Str
